@@ -320,7 +320,7 @@ struct XUtils : Engine {
             ctr().compared++;
             if (pv == P_OK) { ctr().extra[1]++; ctr().nontrivial++;
                 bool to_root = false; for (auto& op : patch.arr) { const RV* o = obj_get(op, "op"); const RV* pa = obj_get(op, "path"); if (o && pa && o->k == RV::Str && pa->k == RV::Str && pa->str.empty() && (o->str == "move" || o->str == "copy")) to_root = true; }
-                if (status != 0) V((to_root && (status == 5 || status == 9)) ? "patch:copy-move-to-whole-document-rejected" : "patch:valid-patch-rejected", "status " + std::to_string(status) + " although RFC 6902 evaluation succeeds (expected " + rv_text(ref).substr(0, 200) + ") | " + ctx);
+                if (status != 0) V(to_root ? "patch:copy-move-to-whole-document-rejected" : "patch:valid-patch-rejected", "status " + std::to_string(status) + " although RFC 6902 evaluation succeeds (expected " + rv_text(ref).substr(0, 200) + ") | " + ctx);
                 else { Walk w = walk(doc); if (w.ok && !rv_equal_sets(rv_from_tree(doc), ref)) { char* t = LIB(cJSON_PrintUnformatted(doc)); V("patch:wrong-result", std::string("document is ") + (t ? t : "?") + " but RFC 6902 gives " + rv_text(ref).substr(0, 200) + " | " + ctx); if (t) LIBV(cJSON_free(t)); } }
             } else { ctr().extra[2]++; if (status == 0) V("patch:invalid-patch-accepted", "status 0 although RFC 6902 evaluation fails | " + ctx); }
         }
